@@ -280,9 +280,21 @@ func runGccall(c *Ctx) {
 	name := core.FuncName(d.Obj)
 	pv := paramVars(d)
 	_ = pv
-	ei := core.EscapesOf(c.Prog, d)
-	// the worker closure
-	for li, l := range escapingLits(c, d) {
+	// the worker closures: escaping literals anywhere in the package (CallConcurrently itself or a
+	// helper it delegates the general case to)
+	type workerLit struct {
+		l *ast.FuncLit
+		d *core.FuncDecl
+	}
+	var workers []workerLit
+	for _, wd := range pkgDecls(c, "ccall") {
+		for _, l := range escapingLits(c, wd) {
+			workers = append(workers, workerLit{l, wd})
+		}
+	}
+	entryDecl := d
+	for li, wl := range workers {
+		l, d := wl.l, wl.d
 		lname := sprintf("%s.worker#%d", name, li+1)
 		type wp struct {
 			lits []*r2Lit
@@ -359,8 +371,9 @@ func runGccall(c *Ctx) {
 	}
 	// the counter the workers decrement and the error they share (found in the worker closures)
 	var counterVar, sharedErrVar *types.Var
-	for _, l := range escapingLits(c, d) {
-		l := l
+	d = entryDecl
+	for _, wl := range workers {
+		l, d := wl.l, wl.d
 		ast.Inspect(l.Body, func(n ast.Node) bool {
 			switch x := n.(type) {
 			case *ast.IncDecStmt:
@@ -398,7 +411,13 @@ func runGccall(c *Ctx) {
 				incSince = true
 			}
 			if ev.Kind == core.KGo {
-				if v := identVar(ev.Call.Fun, ev.Frame); v != nil && len(ei.Bound[v]) > 0 {
+				var bound []*ast.FuncLit
+				if v := identVar(ev.Call.Fun, ev.Frame); v != nil {
+					if ed := c.Prog.EnclosingDecl(ev.Pos); ed != nil {
+						bound = core.EscapesOf(c.Prog, ed).Bound[v]
+					}
+				}
+				if len(bound) > 0 {
 					a.note("R13a", name+"/spawn-counted", ev.Pos, !incSince, "each spawned worker is counted (running++) in the same iteration", "a worker is spawned without running++ in the same iteration: the caller stops waiting before it has finished", p)
 					fnRole := "?fn"
 					if len(ev.Call.Args) == 1 {
@@ -417,7 +436,13 @@ func runGccall(c *Ctx) {
 					a.note("R13e", name+"/cancel-deferred", ev.Pos, !cancelDeferred, "subCtxCancel is deferred before the function is called", "the single function is called before the sub-context's cancel func is deferred", p)
 				}
 			}
-			if ev.Kind == core.KReturn && ev.Frame.Parent == nil && len(ev.Results) == 1 && len(ev.Locks) == 0 {
+			passThrough := false
+			if ev.Kind == core.KReturn && len(ev.Results) == 1 {
+				if call, ok := unparen(ev.Results[0]).(*ast.CallExpr); ok {
+					_, passThrough = g.rets[call] // return helper(...): the helper's own return was judged
+				}
+			}
+			if ev.Kind == core.KReturn && ev.Frame.Lit == nil && ev.Frame.CS == nil && !passThrough && len(ev.Results) == 1 && len(ev.Locks) == 0 {
 				// inside the waiting loop: the returned value is the sampled exitErr
 				inLoop := false
 				for _, b := range p.Events[:i] {
@@ -458,11 +483,23 @@ func runGconc(c *Ctx) {
 		qsize   = "conc.ConcurrentQueue.jobQueueSize"
 	)
 	room := for_(fnot(lt("0", maxc)), lt(running, maxc))
-	for _, fn := range []string{"Enqueue", "updateLocked"} {
-		d := c.declByName("R12", "conc", "ConcurrentQueue", fn)
-		if d == nil {
-			continue
+	incDecOf := func(field string, tok token.Token) func(d *core.FuncDecl, n ast.Node) bool {
+		return func(d *core.FuncDecl, n ast.Node) bool {
+			s, ok := n.(*ast.IncDecStmt)
+			if !ok || s.Tok != tok {
+				return false
+			}
+			fv := fieldVar(s.X, &core.Frame{Pkg: d.Pkg})
+			return fv != nil && core.FieldName(fv) == field
 		}
+	}
+	// the producers: every function that spawns a worker (running++), whatever it is called
+	producers := declsWhere(c, "conc", incDecOf(running, token.INC))
+	if len(producers) < 2 {
+		c.MissingAnchor("R12", sprintf("conc: the functions that spawn workers (running++): found %d, Enqueue and the refill after a limit change are expected", len(producers)))
+	}
+	for _, d := range producers {
+		fn := d.Obj.Name()
 		name := core.FuncName(d.Obj)
 		c.Walk("R12", &core.Config{Follow: samePkgFollow(d.Pkg.PkgPath)}, core.Entry{Decl: d}, func(p *core.Path) {
 			g := prepare(c, p)
@@ -506,7 +543,12 @@ func runGconc(c *Ctx) {
 		})
 		a.expect("R12", name+"/spawn-under-limit", 1, "running++ in "+fn)
 	}
-	if d := c.declByName("R12", "conc", "ConcurrentQueue", "executeJob"); d != nil {
+	// the worker: the function that retires itself (running--)
+	retirers := declsWhere(c, "conc", incDecOf(running, token.DEC))
+	if len(retirers) == 0 {
+		c.MissingAnchor("R12", "conc: the worker function (running--)")
+	}
+	for _, d := range retirers {
 		name := core.FuncName(d.Obj)
 		c.Walk("R12", &core.Config{Follow: samePkgFollow(d.Pkg.PkgPath)}, core.Entry{Decl: d}, func(p *core.Path) {
 			g := prepare(c, p)
@@ -548,7 +590,7 @@ func runGconc(c *Ctx) {
 				}
 			}
 		})
-		a.expect("R12", name+"/retire-when-empty", 1, "running-- in executeJob")
+		a.expect("R12", name+"/retire-when-empty", 1, "running-- in the worker")
 	}
 }
 
